@@ -76,6 +76,7 @@ void ILLsymboltab_init (
 	ILLsymboltab * h)
 {
 	h->tablesize = 0;
+	h->index_ok = 0;
 	h->strsize = 0;
 	h->freedchars = 0;
 	h->hashspace = 0;
